@@ -124,6 +124,7 @@ static pcall_t *pcalls; static volatile int npcalls;
 static pthread_mutex_t plock = PTHREAD_MUTEX_INITIALIZER;
 static volatile int in_parent[MAXN + 1];
 static volatile long ring_errors;
+static long dup_errors;
 
 static int bid(const volatile void *p) { int x = idof(p); return x < 0 ? x : x; }   /* pool index = task id */
 
@@ -151,7 +152,7 @@ static void buf_new(int size, int n, const int *prio)
     bsize = size; N = n;
     buf = parsec_hbbuffer_new((size_t)size, (size_t)size, parent_push, (void*)&plock);
     for(int x = 1; x <= N; x++) { pool[x].priority = prio[x - 1]; pool[x].super.list_next = pool[x].super.list_prev = &pool[x].super; owner[x] = 0; in_parent[x] = 0; }
-    npcalls = 0; ring_errors = 0;
+    npcalls = 0; ring_errors = 0; dup_errors = 0;
 }
 static parsec_list_item_t *make_ring(const int *ids, int n)
 {
@@ -171,7 +172,8 @@ static int do_op(int t, const op_t *o)
         if( NULL == it ) return 0;
         int x = bid(it);
         if( x < 1 || x > N ) return 9999;
-        owner[x] = t + 1;
+        int prev = __atomic_exchange_n(&owner[x], t + 1, __ATOMIC_SEQ_CST);
+        if( 0 != prev ) __atomic_fetch_add(&dup_errors, 1, __ATOMIC_SEQ_CST);     /* the task was not in the buffer: somebody holds it */
         return x;
     }
     for(int i = 0; i < o->n; i++) {
@@ -228,6 +230,7 @@ static int audit(const char *what)
         if( c != 1 ) { printf("!viol C35 conservation: task %d is %d time(s) in the slots, %d in the parent store, %s after %s\n", x, cnt[x], in_parent[x], owner[x] ? "held" : "not held", what); bad = 1; }
     }
     if( ring_errors ) { printf("!viol C35 the ring handed to the parent store is broken (%ld) after %s\n", ring_errors, what); bad = 1; }
+    if( dup_errors ) { printf("!viol C35 pop_best returned a task that another thread already holds (%ld time(s)): the same task was popped twice, after %s\n", dup_errors, what); bad = 1; }
     return bad;
 }
 
